@@ -324,6 +324,10 @@ def attrs_only(seq):
         if el['t'] == 'choice' and all(attrs_only(a) for _, a in el['alts']):
             i += 1
             continue
+        if el['t'] == 'rep' and el['seq'] and attrs_only(el['seq']):
+            # `#(#attributes)*` over a Vec<TokenStream> collected from optional attributes
+            i += 1
+            continue
         return False
     return True
 
@@ -338,6 +342,9 @@ def collect_attrs(seq, conds, out):
         elif el['t'] == 'choice':
             for c, a in el['alts']:
                 collect_attrs(a, conds + c, out)
+            i += 1
+        elif el['t'] == 'rep':
+            collect_attrs(el['seq'], conds, out)
             i += 1
         else:
             i += 1
@@ -377,6 +384,10 @@ class ItemParser:
                 for c, a in el['alts']:
                     self.parse_items(a, conds + c, into)
                 pending = []
+                i += 1
+                continue
+            if el['t'] == 'rep' and el['seq'] and attrs_only(el['seq']):
+                collect_attrs(el['seq'], conds, pending)
                 i += 1
                 continue
             if el['t'] == 'rep':
@@ -490,6 +501,10 @@ class ItemParser:
                         for sub in self.split_commas(a + rest):
                             self.parse_field_part(sub, conds + c, item, pending)
                     return
+            if el['t'] == 'rep' and el['seq'] and attrs_only(el['seq']):
+                collect_attrs(el['seq'], conds, pending)
+                i += 1
+                continue
             if el['t'] == 'rep':
                 for sub in self.split_commas(el['seq']):
                     self.parse_field_part(sub, conds + (('rep', None, None),), item, pending)
